@@ -219,14 +219,14 @@ func main() {
 			fmt.Fprintln(os.Stderr, err)
 			os.Exit(2)
 		}
-		before := site
+		before, beforeLocks := site, lockSites
 		for _, d := range f.Decls {
 			if fd, ok := d.(*ast.FuncDecl); ok && fd.Body != nil {
 				instrumentFuncLits(fd.Body)
 				instrumentBlock(fd.Body)
 			}
 		}
-		if site == before && lockSites == 0 {
+		if site == before && lockSites == beforeLocks {
 			continue
 		}
 		// add the import
